@@ -845,6 +845,14 @@ def run(res, tier):
     c05.level_uniform(facts, res, K, "C04.7.level-uniform")
     res.rule("C04.10 full-order loops: every loop of the operators runs over a range fixed by template constants and enclosing loop variables, or over the items handed to the operator - never over a bound computed from the data of the call")
     res.floor("C04.10", c05.full_order_loops(facts, res, K, "C04.10.full-order-loops"), 15, "loops in the rotation kernel's operators")
+    res.rule("C04.11 the arithmetic that builds and scales the level tables is wide enough: no shift by a run-time level / order in a type that overflows for valid heights and orders (rule C15.4 on src/kernels/rotationkernel)")
+    import c15 as _c15
+    _sub = tbf.Result("C15")
+    _seen = _c15.shift_width(facts, _sub)
+    for _v in _sub.violations:
+        if "/rotationkernel/" in _v["file"]:
+            res.violation("C04.11.table-arithmetic-width", _v["file"], _v["function"], _v["key"], _v["line"], _v["msg"])
+    res.instance("C04.11.table-arithmetic-width", "shifts", "src/kernels/rotationkernel", "%d shift expressions of the library examined, violations under the rotation kernel re-exported" % _seen[0])
     res.rule("C04.9 finite at the centre and on the axis: in the spherical-coordinates constructor and the leaf operators every division by the particle's radius relative to the leaf centre, or by the sine of its polar angle, is under a test of that quantity")
     res.floor("C04.9", pole_divisions(facts, res), 4, "divisions by the radius / sine of the polar angle")
     res.rule("C04.8 per-item scratch: a local array declared outside an operator's item loop and written inside it is fully redefined (copyall / setall / ...) at the top of every iteration before anything else touches it - what is computed for one child / transfer source never depends on which items came before it")
